@@ -20,7 +20,7 @@ MANIFEST = {
         ref="§5 C04, §4.2"),
     "C11": dict(
         technique="Lean 4 proof on the frontend event model (context creation, InlinedVector growth, unbounded-queue growth, user copy/format calls) + extraction of the inline capacity and formatter call sites; measured correspondence with interposed allocators and formatter thread ids",
-        text="Machine-checked proof (Lean 4) that in the model of a log call the allocation events are exactly {thread-context creation on the first call} ∪ {InlinedVector growth when the number of cached lengths exceeds its current capacity} ∪ {unbounded-queue growth when the record does not fit}, plus the documented exclusions (filesystem::path temporary, copy constructor of a non trivially copyable deferred-format type); hence with a registered context, at most N cached lengths (N extracted, obligation N = 12) and a fitting record the event list is empty for every argument list of the listed types; deferred-format arguments are copied (memcpy / placement copy) with no formatter call on the frontend, direct-format arguments incur the formatter calls of the size and encode passes. PARTIAL: the model cannot see a temporary inside libstdc++/libfmt or one introduced by a rewrite of the C++ — only the measured correspondence can, and that is testing: harness H5 interposes operator new/delete, malloc/calloc/realloc/posix_memalign/aligned_alloc and mmap, counts allocations on the calling thread inside each log call (first call, then steady state) for the C04 shapes and every macro family, compares them with the model's predicted event counts (including the cases that must allocate: 13+ cached lengths, record larger than the queue) and checks that user formatters ran on the backend thread for deferred types and on the caller for direct-format types.",
+        text="Machine-checked proof (Lean 4) that in the model of a log call the allocation events are exactly {thread-context creation on the first call} ∪ {InlinedVector growth when the number of cached lengths exceeds its current capacity} ∪ {unbounded-queue growth when the record does not fit}, plus the documented exclusions (filesystem::path temporary, copy constructor of a non trivially copyable deferred-format type); hence with a registered context, at most N cached lengths (N extracted, obligation N = 12) and a fitting record the event list is empty for every argument list of the listed types; deferred-format arguments are copied (memcpy / placement copy) with no formatter call on the frontend, direct-format arguments incur the formatter calls of the size and encode passes (two per argument). Finding F16 (the std::map / std::unordered_map codecs copied every pair<const Key,T> element into a pair<Key,T> temporary in both passes — one allocation per non-SSO string on the caller) was found by this check, is proved as a negation witness for the extracted flag pairTemp = true, and is repaired in /repo; the obligation pairTemp = false (own module) now holds and maps of listed types are covered in full; the corpus replay reports a reversion. PARTIAL: the model cannot see a temporary inside libstdc++/libfmt or one introduced by a rewrite of the C++ — only the measured correspondence can, and that is testing: harness H5 interposes operator new/delete, malloc/calloc/realloc/posix_memalign/aligned_alloc and mmap, counts allocations on the calling thread inside each log call (first call, then steady state) for the C04 shapes and every macro family, compares them with the model's predicted event counts (including the cases that must allocate: 13+ cached lengths, record larger than the queue) and checks that user formatters ran on the backend thread for deferred types and on the caller for direct-format types.",
         note="partial (measured, not proved, for anything inside libstdc++/libfmt or outside the modelled functions); bounded-queue variants follow from the same event model with maxCap = 0.",
         ref="§5 C11, §4.2"),
 }
@@ -38,10 +38,13 @@ THEOREMS = {
     "C11": ["Codec.C11_events_exact", "Codec.C11_cache_growth_iff", "Codec.C11_queue_growth_iff", "Codec.C11_no_events", "Codec.C11_steady_state",
             "Codec.C11_formatter_calls", "Codec.C11_deferred_no_format",
             "Obligations.codec_extraction_complete", "Obligations.codec_cache_geometry",
-            "Obligations.alloc_inline_capacity", "Obligations.alloc_formatter_sites", "Obligations.C11_extracted"],
+            "Codec.C11_map_pair_temporary_allocates", "Codec.C11_listed_of_no_pair_temporaries",
+            "Obligations.alloc_inline_capacity", "Obligations.alloc_formatter_sites", "Obligations.C11_extracted",
+            "Obligations.alloc_no_pair_temporaries", "Obligations.C11_maps_listed", "Obligations.C11_no_events_maps"],
 }
 MODULES = {"C04": ["QuillModel.Props.C04"], "C11": ["QuillModel.Props.C11"]}
-OBLIG = {"C04": ["QuillModel.Obligations.Codec"], "C11": ["QuillModel.Obligations.Codec", "QuillModel.Obligations.CodecAlloc"]}
+OBLIG = {"C04": ["QuillModel.Obligations.Codec"],
+         "C11": ["QuillModel.Obligations.Codec", "QuillModel.Obligations.CodecAlloc", "QuillModel.Obligations.CodecAllocMap"]}
 
 H3_PARTS = [1, 2, 3, 4, 5, 6]
 H3_FLAGS = ["-fno-access-control", "-O0", "-fno-sanitize=nonnull-attribute"]
@@ -246,7 +249,7 @@ def run_c11(ck, tier):
         ck.violation("harness_build", log, "harness h5_alloc no longer compiles against the current tree (correspondence broken): " + log[-300:],
                      no_input=True)
         return ck.finish()
-    n = 3 if tier == "quick" else 25
+    n = 40 if tier == "quick" else 300
     seeds = [ck.seed] if tier == "quick" else [ck.seed, ck.seed + 1000, ck.seed + 2000]
     tot = dict(cases=0, mismatches=0, problems=0)
     stats_lines, samples, traces = [], [], []
